@@ -25,6 +25,26 @@ def _absval(out, keys_of):
     return n
 
 
+def _absent(out):
+    """replay the event-level entity model (Abs/Entities.v) on every real trace"""
+    import os
+    from .. import core
+    n = 0
+    if not os.path.exists(core.DRIVER):
+        return 0
+    for r in out['results']:
+        if not r['ok']:
+            continue
+        rc, o = core.run([core.DRIVER, 'absent', r['trace_path']], timeout=120)
+        n += 1
+        for l in o.split('\n'):
+            if l.startswith('DIFF'):
+                out['diffs'].append('%s [entity model]: %s' % (r['name'], l[:400]))
+        if rc not in (0, 1):
+            out['diffs'].append('%s: entity-model replay failed: %s' % (r['name'], o[-200:]))
+    return n
+
+
 def _tier(ctx, quick, thorough):
     return quick if ctx['tier'] == 'quick' else thorough
 
@@ -51,6 +71,7 @@ def run_c01(ctx):
     n = _tier(ctx, 24, 300)
     jobs = pc.corpus_jobs(['S18_*.scn', 'S11_*.scn']) + pc.generated_jobs('C01', ctx['seed'], n, ['entities', 'entities', 'mixed'])
     out = pc.run_scenarios('C01', ctx, jobs, [oracles.c01_entities], nontrivial=pc.received_kinds)
+    out['opstats']['entity_model_replays'] = _absent(out)
     return pc.make_result('C01', ctx, out, 'frames of generated spawn/despawn histories (1..3 clients, paced frames, marks before connection, late joins) + corpus; non-trivial = distinct (scenario, receiver, entity message kind, uuid) received')
 
 
@@ -91,6 +112,7 @@ def run_c03(ctx):
     jobs, metas = _jobs_from(scen.join, 'C03', ctx['seed'], n)
     jobs = pc.corpus_jobs(['S18_*.scn']) + jobs
     out = pc.run_scenarios('C03', ctx, jobs, [_with_meta(metas, _c03_oracle)], nontrivial=pc.received_kinds)
+    out['opstats']['entity_model_replays'] = _absent(out)
     return pc.make_result('C03', ctx, out, 'frames of histories in which the last client joins at a random moment (idle or while the others keep writing), 8 switch combinations; non-trivial = distinct (scenario, receiver, kind, key) received',
                           assumptions=['download threads and sockets are outside the model: a finished download is an oracle event'])
 
